@@ -16,7 +16,7 @@ LEVEL_TEXT = (
     "For generated numeric expressions over bounded / half-bounded / unbounded int and real fluents, parameters and constants of any magnitude the "
     "inferred type of the expression and of every sub-expression is compared with exact rational evaluation at corner, extreme and random points "
     "of the leaves' declared types (lower <= value <= upper, integer-typed => integer value); Boolean and user-typed expressions must get exactly "
-    "their type; every ordered pair of a pool of 24 operand kinds (incl. a type hierarchy three levels deep with two branches) is used to build Equals(l,r) and Equals(r,l), each in its own fresh environment, "
+    "their type; every ordered pair of a pool of 27 operand kinds (timepoints included) (incl. a type hierarchy three levels deep with two branches) is used to build Equals(l,r) and Equals(r,l), each in its own fresh environment, "
     "which must both be accepted or both rejected. Replaces the SMT query of the quantifier text by sampling: weaker on infinite domains. In the thorough tier the "
     "repository's own test-suite is re-run with a pass-through wrapper on TypeChecker.get_type: arithmetic results are judged by exact evaluation under 16 random "
     "first-order interpretations, every Equals verdict is compared with the verdict for the mirrored operand types."
@@ -246,6 +246,10 @@ OPERANDS = {
     "var-T2": ["v", "z", ["user", "T2"]],
     "num-expr": ["plus", ["f", "ib"], ["r", "1/3"]],
     "bool-expr": ["not", ["f", "bf"]],
+    # timepoints compare with numbers and timepoints only, in either order
+    "time-start": ["timing", ["start", "0"]],
+    "time-end-delay": ["timing", ["end", "2"]],
+    "time-global-start": ["timing", ["gstart", "1/2"]],
 }
 
 
